@@ -1,4 +1,4 @@
-import Solvor.Graph.Model
+import Solvor.Graph.Spec
 /-! Graph: helper lemmas for the C14 theorems (core Lean only). -/
 namespace Solvor.Graph
 
@@ -197,5 +197,137 @@ theorem mem_reach_iff {adj : Adj} {U src : List Nat} (hc : Closed U adj) (hs : s
     induction hr with
     | refl => exact closure_subset _ _ _ (mem_dedup.2 hs')
     | tail _ hcb ih => exact hcl _ ih _ hcb
+
+/-! ### SCC certificate -/
+
+theorem mem_flatten_iff_getElem {comps : List (List Nat)} {v : Nat} :
+    v ∈ comps.flatten ↔ ∃ i, ∃ h : i < comps.length, v ∈ comps[i] := by
+  rw [List.mem_flatten]
+  constructor
+  · rintro ⟨l, hl, hv⟩
+    obtain ⟨i, h, rfl⟩ := List.mem_iff_getElem.1 hl
+    exact ⟨i, h, hv⟩
+  · rintro ⟨i, h, hv⟩
+    exact ⟨_, List.getElem_mem h, hv⟩
+
+/-- in a partition every vertex has one class index -/
+theorem class_unique {comps : List (List Nat)} (hn : comps.flatten.Nodup) {v i j : Nat}
+    {hi : i < comps.length} {hj : j < comps.length} (h1 : v ∈ comps[i]) (h2 : v ∈ comps[j]) : i = j := by
+  have hp := (List.pairwise_flatten.1 hn).2
+  rw [List.pairwise_iff_getElem] at hp
+  rcases Nat.lt_trichotomy i j with h | h | h
+  · exact absurd rfl (hp i j hi hj h v h1 v h2)
+  · exact h
+  · exact absurd rfl (hp j i hj hi h v h2 v h1)
+
+/-- along a walk the class index never increases -/
+theorem SccCert.reach_idx_le {V : List Nat} {adj : Adj} {comps : List (List Nat)} (C : SccCert V adj comps)
+    {u v i : Nat} {hi : i < comps.length} (hu : u ∈ comps[i]) (h : Reach adj u v) :
+    ∃ j, ∃ hj : j < comps.length, j ≤ i ∧ v ∈ comps[j] := by
+  induction h with
+  | refl => exact ⟨i, hi, Nat.le_refl _, hu⟩
+  | @tail b c _ hcb ih =>
+    obtain ⟨j, hj, hji, hb⟩ := ih
+    have hbV : b ∈ V := (C.cover b).1 (mem_flatten_iff_getElem.2 ⟨j, hj, hb⟩)
+    have hcV : c ∈ V := C.closed b hbV c hcb
+    obtain ⟨k, hk, hc⟩ := mem_flatten_iff_getElem.1 ((C.cover c).2 hcV)
+    refine ⟨k, hk, ?_, hc⟩
+    apply Classical.byContradiction
+    intro hlt
+    have hord := C.order
+    unfold SinksFirst at hord
+    rw [List.pairwise_iff_getElem] at hord
+    exact hord j k hj hk (by omega) b hb c hcb hc
+
+theorem SccCert.isSccDecomp {V : List Nat} {adj : Adj} {comps : List (List Nat)} (C : SccCert V adj comps) :
+    IsSccDecomp V adj comps where
+  nodup := C.nodup
+  cover := C.cover
+  nonempty := fun c hc => (C.strong c hc).1
+  order := C.order
+  classes := by
+    intro u hu v hv
+    constructor
+    · rintro ⟨c, hc, huc, hvc⟩
+      exact ⟨(C.strong c hc).2 u huc v hvc, (C.strong c hc).2 v hvc u huc⟩
+    · rintro ⟨huv, hvu⟩
+      obtain ⟨i, hi, hui⟩ := mem_flatten_iff_getElem.1 ((C.cover u).2 hu)
+      obtain ⟨j, hj, hvj⟩ := mem_flatten_iff_getElem.1 ((C.cover v).2 hv)
+      obtain ⟨j', hj', hle1, hvj'⟩ := C.reach_idx_le hui huv
+      obtain ⟨i', hi', hle2, hui'⟩ := C.reach_idx_le hvj hvu
+      have e1 : j' = j := class_unique C.nodup hvj' hvj
+      have e2 : i' = i := class_unique C.nodup hui' hui
+      have : i = j := by omega
+      subst this
+      exact ⟨comps[i], List.getElem_mem hi, hui, hvj⟩
+
+theorem IsSccDecomp.cert {V : List Nat} {adj : Adj} {comps : List (List Nat)} (hc : Closed V adj)
+    (D : IsSccDecomp V adj comps) : SccCert V adj comps where
+  closed := hc
+  nodup := D.nodup
+  cover := D.cover
+  order := D.order
+  strong := by
+    intro c hcm
+    refine ⟨D.nonempty c hcm, ?_⟩
+    intro u hu v hv
+    have huV : u ∈ V := (D.cover u).1 (List.mem_flatten.2 ⟨c, hcm, hu⟩)
+    have hvV : v ∈ V := (D.cover v).1 (List.mem_flatten.2 ⟨c, hcm, hv⟩)
+    exact ((D.classes u huV v hvV).1 ⟨c, hcm, hu, hv⟩).1
+
+/-! ### Boolean checkers -/
+
+theorem closedB_iff {V : List Nat} {adj : Adj} : closedB V adj = true ↔ Closed V adj := by
+  simp [closedB, Closed]
+
+theorem orderB_iff {adj : Adj} {comps : List (List Nat)} : orderB adj comps = true ↔ SinksFirst adj comps := by
+  unfold SinksFirst
+  induction comps with
+  | nil => simp [orderB]
+  | cons a rest ih =>
+    simp only [orderB, Bool.and_eq_true, ih, List.pairwise_cons]
+    simp
+
+theorem strongB_iff {V : List Nat} {adj : Adj} (hc : Closed V adj) {c : List Nat} (hcV : c ⊆ V) :
+    strongB V adj c = true ↔ c ≠ [] ∧ ∀ u ∈ c, ∀ v ∈ c, Reach adj u v := by
+  cases c with
+  | nil => simp [strongB]
+  | cons h t =>
+    have hh : h ∈ V := hcV (List.mem_cons_self)
+    simp only [strongB, List.all_eq_true, Bool.and_eq_true, List.contains_iff_mem]
+    constructor
+    · intro H
+      refine ⟨by simp, ?_⟩
+      intro u hu v hv
+      have h1 := H u hu
+      have h2 := H v hv
+      have r1 : Reach adj u h := by
+        have := (mem_reach_iff hc (src := [u]) (by intro y hy; simp at hy; subst hy; exact hcV hu)).1 h1.2
+        simpa using this
+      have r2 : Reach adj h v := by
+        have := (mem_reach_iff hc (src := [h]) (by intro y hy; simp at hy; subst hy; exact hh)).1 h2.1
+        simpa using this
+      exact r1.trans r2
+    · rintro ⟨_, H⟩ v hv
+      constructor
+      · apply (mem_reach_iff hc (src := [h]) (by intro y hy; simp at hy; subst hy; exact hh)).2
+        exact ⟨h, by simp, H h List.mem_cons_self v hv⟩
+      · apply (mem_reach_iff hc (src := [v]) (by intro y hy; simp at hy; subst hy; exact hcV hv)).2
+        exact ⟨v, by simp, H v hv h List.mem_cons_self⟩
+
+theorem chkScc_iff_cert {V : List Nat} {adj : Adj} {comps : List (List Nat)} :
+    chkScc V adj comps = true ↔ SccCert V adj comps := by
+  unfold chkScc
+  simp only [Bool.and_eq_true, decide_eq_true_eq, closedB_iff, orderB_iff, List.all_eq_true,
+    List.contains_iff_mem]
+  constructor
+  · rintro ⟨⟨⟨⟨⟨h1, h2⟩, h3⟩, h4⟩, h5⟩, h6⟩
+    refine ⟨h1, h2, fun v => ⟨h3 v, h4 v⟩, ?_, h6⟩
+    intro c hc
+    exact (strongB_iff h1 (fun x hx => h3 x (List.mem_flatten.2 ⟨c, hc, hx⟩))).1 (h5 c hc)
+  · intro C
+    refine ⟨⟨⟨⟨⟨C.closed, C.nodup⟩, fun v => (C.cover v).1⟩, fun v => (C.cover v).2⟩, ?_⟩, C.order⟩
+    intro c hc
+    exact (strongB_iff C.closed (fun x hx => (C.cover x).1 (List.mem_flatten.2 ⟨c, hc, hx⟩))).2 (C.strong c hc)
 
 end Solvor.Graph
